@@ -39,8 +39,21 @@ static FILE * out;
 static long nlines;
 
 static int on_error(scpi_t * c, int_fast16_t e) { (void) c; (void) e; return 0; }
+/* a second, independent context (another port of the instrument): while `other_port_answers` is set it formats numbers
+   of its own every time the first context writes - what one context sends is a function of its own history only */
+static scpi_t ctx2;
+static char ibuf2[64];
+static scpi_error_t eq2[4];
+static int other_port_answers;
+static size_t on_write2(scpi_t * c, const char * d, size_t l) { (void) c; (void) d; return l; }
 static size_t on_write(scpi_t * c, const char * d, size_t l) {
     (void) c;
+    if (other_port_answers) {
+        ctx2.output_count = 0;
+        SCPI_ResultDouble(&ctx2, 1234567.96875);
+        SCPI_ResultFloat(&ctx2, 123.4375f);
+        SCPI_ResultDouble(&ctx2, -9.87654321012345e-300);
+    }
     if (outn + l < sizeof outb) { memcpy(outb + outn, d, l); outn += l; }
     return l;
 }
@@ -48,6 +61,7 @@ static scpi_result_t on_control(scpi_t * c, scpi_ctrl_name_t n, scpi_reg_val_t v
 static scpi_result_t on_flush(scpi_t * c) { (void) c; return SCPI_RES_OK; }
 static const scpi_command_t cmds[] = { {"*CLS", SCPI_CoreCls, 0}, SCPI_CMD_LIST_END };
 static scpi_interface_t itf = {on_error, on_write, on_control, on_flush, NULL};
+static scpi_interface_t itf2 = {on_error, on_write2, on_control, on_flush, NULL};
 
 /* ------------------------------------------------------------------ prng (splitmix64) */
 static uint64_t rs;
@@ -126,8 +140,10 @@ static void rec_double(const char * src, double v) {
     /* the same value as a later item of a response (after the separator) and through SCPI_NumberToStr */
     outn = 0;
     ctx.output_count = 0;
+    other_port_answers = 1;
     SCPI_ResultInt32(&ctx, 0);
     SCPI_ResultDouble(&ctx, v);
+    other_port_answers = 0;
     outb[outn] = 0;
     bytes("tr2", (outn >= 2 && outb[0] == '0' && outb[1] == ',') ? outb + 2 : outb);
     {
@@ -190,8 +206,10 @@ static void rec_float(const char * src, float f) {
     bytes("tr", outb);
     outn = 0;
     ctx.output_count = 0;
+    other_port_answers = 1;
     SCPI_ResultInt32(&ctx, 0);
     SCPI_ResultFloat(&ctx, f);
+    other_port_answers = 0;
     outb[outn] = 0;
     bytes("tr2", (outn >= 2 && outb[0] == '0' && outb[1] == ',') ? outb + 2 : outb);
     fprintf(out, "}\n");
@@ -393,6 +411,7 @@ static void gen_all(uint64_t seed, long nrand, int estride) {
 
 int main(int argc, char ** argv) {
     SCPI_Init(&ctx, cmds, &itf, scpi_units_def, "MF", "MD", NULL, "1", ibuf, sizeof ibuf, eq, 4);
+    SCPI_Init(&ctx2, cmds, &itf2, scpi_units_def, "MF", "MD", NULL, "1", ibuf2, sizeof ibuf2, eq2, 4);
     if (argc == 6 && !strcmp(argv[1], "gen")) {
         out = fopen(argv[5], "w");
         if (!out) { perror(argv[5]); return 3; }
